@@ -45,12 +45,16 @@ def true_ranks(n, rho):
 
 
 def record(n, rho, r0, drmin, drmax, nswp=None, cache=False, m=None, none_at=None, cb_at=None,
-           seed=1, mcs=10**5, e=None, e_vld=None, vld=False, tau=1.1, return_Y=False, pre=None):
+           seed=1, mcs=10**5, e=None, e_vld=None, vld=False, tau=1.1, return_Y=False, pre=None, zeros=False):
     """Run teneva.cross once and return the trace (cfg + events)."""
     if not hasattr(C, '_iter') or not hasattr(C, '_func'):
         raise common.Machinery('teneva.cross lost the _iter/_func seams the recorder relies on')
     cores, F = make_target(n, rho, seed)
     d = len(n)
+    if zeros:
+        # an objective that is exactly 0.0 at many indices (no exactness claim for such a target)
+        F = F.copy()
+        F[np.random.default_rng(seed + 5).random(F.shape) < 0.4] = 0.
     Y0 = teneva.rand(n, r0, seed=seed + 1000)
     ev = []
     ncall = [0]
@@ -126,6 +130,18 @@ def record(n, rho, r0, drmin, drmax, nswp=None, cache=False, m=None, none_at=Non
     try:
         Y = teneva.cross(f, Y0, m=m, e=e, nswp=nswp, tau=tau, dr_min=drmin, dr_max=drmax, info=info, cache=c,
                          I_vld=I_vld, y_vld=y_vld, e_vld=e_vld, cb=cb, func=func, m_cache_scale=mcs)
+    except Exception as ex:
+        # whatever the interruption point, cross must RETURN a tensor: an exception is recorded as a failed return
+        C._iter = orig
+        ev.append(dict(ev='raised', what='%s: %s' % (type(ex).__name__, str(ex)[:200])))
+        cfg = dict(n=list(n), r0=[int(x) for x in teneva.ranks(Y0)], drmin=drmin, drmax=drmax,
+                   nswp=-1 if nswp is None else nswp, mmax=-1 if m is None else int(m), cache=bool(cache), mcs=int(mcs),
+                   hasE=e is not None, hasV=e_vld is not None, rho=[99] * (d + 1), pre=[])
+        tr = dict(cfg=cfg, ev=ev, meta=dict(seed=seed, rho=rho, none_at=none_at, cb_at=cb_at, e=e, e_vld=e_vld, vld=vld, npre=0, raised=str(ex)[:200]))
+        info.setdefault('m', -1)
+        if return_Y:
+            return tr, info, ncall[0], None
+        return tr, info, ncall[0]
     finally:
         C._iter = orig
 
@@ -176,7 +192,7 @@ def record(n, rho, r0, drmin, drmax, nswp=None, cache=False, m=None, none_at=Non
                    acc_ok=bool(acc <= 1e-6), acc=acc))
     cfg = dict(n=list(n), r0=[int(x) for x in teneva.ranks(Y0)], drmin=drmin, drmax=drmax,
                nswp=-1 if nswp is None else nswp, mmax=-1 if m is None else int(m), cache=bool(cache), mcs=int(mcs),
-               hasE=e is not None, hasV=e_vld is not None, rho=true_ranks(n, rho),
+               hasE=e is not None, hasV=e_vld is not None, rho=true_ranks(n, rho) if not zeros else [99] * (d + 1),
                pre=[list(p) for p in dict.fromkeys(pre)])
     tr = dict(cfg=cfg, ev=ev, meta=dict(seed=seed, rho=rho, none_at=none_at, cb_at=cb_at, e=e, e_vld=e_vld, vld=vld, npre=len(pre)))
     if return_Y:
@@ -208,12 +224,17 @@ def fault_suite(n, rho, r0, drm, drM, nswp, cache, seed, dense_budgets=False):
     for m in budgets:
         if m >= 1:
             out.append(record(n, rho, r0, drm, drM, nswp, cache, m=m, seed=seed)[0])
-    nones = range(1, nc + 2) if dense_budgets else sorted(set([1, 2, nc // 2, nc, nc + 1]))
+    d_ = len(n)
+    # every call position when dense, otherwise the ends plus the first request of every sweep (2 d s + 1)
+    nones = range(1, nc + 2) if dense_budgets else sorted(set([1, 2, nc // 2, nc, nc + 1] + [2 * d_ * s_ + 1 for s_ in range(1, 4)] + [2 * d_ * s_ for s_ in range(1, 4)]))
     for k in nones:
-        if k >= 1:
+        if 1 <= k <= nc + 1:
             out.append(record(n, rho, r0, drm, drM, nswp, cache, none_at=k, seed=seed)[0])
     for s in range(1, (nswp or 0) + 1):
         out.append(record(n, rho, r0, drm, drM, nswp, cache, cb_at=s, seed=seed)[0])
+    # an objective with exact zeros (a cached 0.0 is still a cache hit)
+    out.append(record(n, rho, r0, drm, drM, max(2, nswp or 0), cache, seed=seed, zeros=True)[0])
+    out.append(record(n, rho, r0, drm, drM, max(2, nswp or 0), cache, seed=seed, zeros=True, m=max(1, M // 2))[0])
     if cache:
         out.append(record(n, rho, r0, drm, drM, nswp, cache, mcs=1, seed=seed)[0])
     # accuracy-driven stops
